@@ -164,6 +164,16 @@ def aloneAt (st : St) (d : Dag α) (k : Nat) (cols : List String) : Except (List
   | .error e => .error e
   | .ok st1 => .ok (st1, restoreAt st1 d k (st.mgr k))
 
+/-- several evaluations with `prepare_ids=True` in a row (what the audit of a logit does with the choice and
+the availabilities — `Database.check_availability_of_chosen_alt` — before the formula that contains them
+is evaluated) -/
+def aloneSeq (st : St) (d : Dag α) (cols : List String) : List Nat → Except (List String) St
+  | [] => .ok st
+  | k :: ks =>
+    match aloneAt st d k cols with
+    | .error e => .error e
+    | .ok (_, st2) => aloneSeq st2 d cols ks
+
 /-- what a restoration of the evaluated node's *own reference only* would leave (the state is then
 no longer uniform: the leaves keep the temporary numbering) -/
 def restoreShallow (st : St) (k : Nat) (keep : Option Nat) : St :=
